@@ -415,6 +415,8 @@ def lifecycle_chunk(seed, idx, n):
         h[key] = h.get(key, 0) + 1
         for what, details, sig in res:
             ex.failures.append(Failure('monitor', what, case, details, signature=sig))
+        if len(ex.failures) >= 2:
+            break       # enough counterexamples from this chunk; hangs are expensive
     return ex
 
 
